@@ -516,3 +516,18 @@ Definition bad_c13 (s : schema) (n : nat) : list string :=
 Definition bad_c15 (s : schema) : list string :=
   map (fun ic => "class " ++ cname (snd ic))
       (filter (fun ic => negb (value_object_class s ic)) (indexed (s_classes s))).
+
+(* ---------- executable comparison for the index correspondence (C09) ---------- *)
+Record icase := { ic_by_key : bool; ic_name : string; ic_key : Z; ic_version : Z; ic_type : etype;
+                  ic_expect : Z }.   (* class index, or -1 UnknownAPIKey, -2 UnknownEntity, -3 other *)
+Definition ires_code (r : ires nat) : Z :=
+  match r with IOk j => Z.of_nat j | IErr UnknownAPIKey => (-1)%Z | IErr UnknownEntity => (-2)%Z
+             | IErr ImportFailure => (-3)%Z end.
+Definition check_icase (s : schema) (k : icase) : bool :=
+  Z.eqb (ires_code (if ic_by_key k then load_payload_schema s (ic_key k) (ic_version k) (ic_type k)
+                    else load_entity_schema s (ic_name k) (ic_version k) (ic_type k))) (ic_expect k).
+Fixpoint ifailing_from (s : schema) (i : nat) (l : list icase) : list nat :=
+  match l with
+  | [] => []
+  | x :: tl => if check_icase s x then ifailing_from s (S i) tl else i :: ifailing_from s (S i) tl
+  end.
